@@ -132,7 +132,9 @@ class VariationalStrategy(_VariationalStrategy):
 
         var_cov_root = TriangularLinearOperator(self._variational_distribution.chol_variational_covar.tril())
         var_cov = CholLinearOperator(var_cov_root)
-        var_mean = self.variational_distribution.mean
+        # (q(u) is evaluated here, not read from the memoised property: this runs under no_grad inside
+        # amortized_exact_gp, and a graph-free q(u) left in the memo would take the gradient from later evaluation-mode calls)
+        var_mean = self._variational_distribution().mean
         if var_mean.shape[-1] != 1:
             var_mean = var_mean.unsqueeze(-1)
 
